@@ -69,6 +69,10 @@ def render(c, ind):
         return '%sif %s then\n%s\n%selse\n%s' % (sp, c[1], render(c[2], ind + 2), sp, render(c[3], ind + 2))
     if k == 'ret':
         return sp + 'ROk %s' % paren(c[1])
+    if k == 'm':
+        return sp + c[1]
+    if k == 'bindc':
+        return '%s%s <- (\n%s) ;;\n%s' % (sp, c[1], render(c[2], ind + 4), render(c[3], ind))
     if k == 'match':
         rows = ''.join('\n%s| %s =>\n%s' % (sp, p, render(b, ind + 4)) for p, b in c[2])
         return '%smatch %s with%s\n%send' % (sp, c[1], rows, sp)
@@ -145,7 +149,7 @@ class Fn:
             var, ty = st.cells[key]
             setter = self.sig['fields'].get(ty, {}).get(e.attr)
             getter = self.sig['attrs'].get(ty, {}).get(e.attr)
-            if setter and getter:
+            if isinstance(setter, str) and getter:
                 return fmt(getter[0], var), getter[1], (lambda new: [(var, fmt(setter, var, new))]), pre
         raise Unsupported(e, 'an in-place effect on an object that is not the receiver, a parameter or a field of one '
                              '(it may alias one)')
@@ -167,7 +171,7 @@ class Fn:
                 pre.append(('bind', nv, fmt(r['coq'], var)))
                 st.cells[b[1]] = [nv, r['to']]
 
-    def cx(self, e, st, pre):
+    def cx(self, e, st, pre, stmt=False):
         """-> (pure term, type); bindings needed before it are appended to pre as (kind, pat, term)"""
         sig = self.sig
         for p in sig.get('patterns', []):
@@ -189,6 +193,8 @@ class Fn:
                 if e.value not in sig['messages']:
                     raise Unsupported(e, 'message text %r is not in the signature file' % e.value[:50])
                 return sig['messages'][e.value], 'msg'
+            if isinstance(e.value, int) and e.value >= 0:
+                return str(e.value), 'nat'
             raise Unsupported(e, 'constant %r' % (e.value,))
         if isinstance(e, ast.Attribute):
             if isinstance(e.value, ast.Name):
@@ -218,7 +224,26 @@ class Fn:
         if isinstance(e, ast.Compare):
             return self.compare(e, st, pre)
         if isinstance(e, ast.Call):
-            return self.call(e, st, pre)
+            return self.call(e, st, pre, stmt)
+        if isinstance(e, ast.ListComp):
+            if len(e.generators) != 1 or e.generators[0].ifs or e.generators[0].is_async \
+                    or not isinstance(e.generators[0].target, ast.Name):
+                raise Unsupported(e, 'list comprehension outside the subset')
+            g = e.generators[0]
+            src, sty = self.cx(g.iter, st, pre)
+            ety = self.sig.get('elem', {}).get(sty)
+            if ety is None:
+                raise Unsupported(e, 'comprehension over a %s' % sty)
+            if g.target.id in st.env:
+                raise Unsupported(e, 'comprehension variable %s shadows a name' % g.target.id)
+            st2 = st.copy()
+            st2.env[g.target.id] = ('val', g.target.id, ety)
+            p2 = []
+            body, bty = self.cx(e.elt, st2, p2)
+            lty = self.sig.get('listof', {}).get(bty)
+            if p2 or lty is None:
+                raise Unsupported(e, 'comprehension element outside the subset (a %s)' % bty)
+            return 'map (fun %s => %s) %s' % (g.target.id, body, paren(src)), lty
         raise Unsupported(e, 'expression %s is outside the supported subset' % type(e).__name__)
 
     def compare(self, e, st, pre):
@@ -233,8 +258,23 @@ class Fn:
                 raise Unsupported(e, 'None test of a %s' % ty)
             t = fmt(self.sig['is_none'][ty], t)
             return (t if isinstance(op, ast.Is) else 'negb %s' % paren(t)), 'bool'
+        if isinstance(op, (ast.In, ast.NotIn)):
+            a, aty = self.cx(l, st, pre)
+            b, bty = self.cx(r, st, pre)
+            c = self.sig.get('contains', {}).get('%s in %s' % (aty, bty))
+            if c is None:
+                raise Unsupported(e, 'membership of a %s in a %s' % (aty, bty))
+            t = fmt(c, a, b)
+            return (t if isinstance(op, ast.In) else 'negb %s' % paren(t)), 'bool'
         if not isinstance(op, (ast.Eq, ast.NotEq)):
             raise Unsupported(e, 'comparison operator %s' % type(op).__name__)
+        if isinstance(r, ast.Constant) and isinstance(r.value, str):
+            a, aty = self.cx(l, st, pre)
+            c = self.sig.get('const_eq', {}).get(aty, {}).get(r.value)
+            if c is None:
+                raise Unsupported(e, 'comparison of a %s with the text %r' % (aty, r.value))
+            t = fmt(c, a)
+            return (t if isinstance(op, ast.Eq) else 'negb %s' % paren(t)), 'bool'
         # == / != on the receiver dispatches to a translated method
         if isinstance(l, ast.Name) and l.id in st.env and st.env[l.id][0] == 'cell' \
                 and st.cells[st.env[l.id][1]][1] in self.sig.get('dispatch', {}):
@@ -253,7 +293,7 @@ class Fn:
             return '%s.%s' % (f.value.id, f.attr)
         return None
 
-    def call(self, e, st, pre):
+    def call(self, e, st, pre, stmt=False):
         f = e.func
         sig = self.sig
         # module functions, overloaded on the argument types
@@ -266,6 +306,24 @@ class Fn:
                 if [a[1] for a in args] == want:
                     return fmt(coq, *[a[0] for a in args]), ty
             raise Unsupported(e, '%s on arguments of types %s' % (name, [a[1] for a in args]))
+        if isinstance(f, ast.Name) and f.id not in st.env:
+            key = f.id + ('(%s)' % ','.join(k.arg or '*' for k in e.keywords) if e.keywords else '')
+            if key not in sig.get('functions', {}):
+                raise Unsupported(e, 'call of %s is not in the signature file' % key)
+            self.tr.need_import(e, f.id)
+            args = [self.cx(a, st, pre) for a in list(e.args) + [k.value for k in e.keywords]]
+            for ent in sig['functions'][key]:
+                if [a[1] for a in args] == ent[0]:
+                    t = fmt(ent[1], *[a[0] for a in args])
+                    if len(ent) > 3 and ent[3].get('monadic'):
+                        if not stmt:
+                            v = self.fresh('t')
+                            pre.append(('bind', v, t))
+                            return v, ent[2]
+                        pre.append(('bind', '_', t))
+                        return 'tt', ent[2]
+                    return t, ent[2]
+            raise Unsupported(e, '%s on arguments of types %s' % (key, [a[1] for a in args]))
         if not isinstance(f, ast.Attribute):
             raise Unsupported(e, 'call outside the supported subset')
         # translated methods of the class
@@ -286,6 +344,11 @@ class Fn:
             if e.args or len(e.keywords) > 1 or (e.keywords and e.keywords[0].arg != m['kw']):
                 raise Unsupported(e, 'arguments of .%s outside the subset' % f.attr)
             val = m['default']
+            if e.keywords and isinstance(e.keywords[0].value, ast.Name) and 'var' in m:
+                t, ty = self.cx(e.keywords[0].value, st, pre)
+                if ty != m['var'][1]:
+                    raise Unsupported(e, '%s= of type %s' % (m['kw'], ty))
+                return fmt(m['var'][0], base, t), m['type']
             if e.keywords:
                 v = e.keywords[0].value
                 if not (isinstance(v, ast.Constant) and isinstance(v.value, str)):
@@ -294,19 +357,36 @@ class Fn:
             if val not in m['values']:
                 raise Unsupported(e, '%s=%r is not in the signature file' % (m['kw'], val))
             return fmt(m['values'][val], base), m['type']
-        if e.args or e.keywords:
-            raise Unsupported(e, 'arguments of .%s outside the subset' % f.attr)
+        if e.keywords:
+            raise Unsupported(e, 'keyword arguments of .%s outside the subset' % f.attr)
+        margs = []
+        want = m.get('args', [])
+        if len(e.args) != len(want):
+            raise Unsupported(e, '.%s with %d arguments' % (f.attr, len(e.args)))
+        for a, w in zip(e.args, want):
+            if w == 'None':
+                if not (isinstance(a, ast.Constant) and a.value is None):
+                    raise Unsupported(e, 'argument of .%s is not None' % f.attr)
+                continue
+            t, ty = self.cx(a, st, p0)
+            if ty != w:
+                raise Unsupported(e, 'argument of .%s has type %s, expected %s' % (f.attr, ty, w))
+            margs.append(t)
+        if m.get('fresh'):
+            raise Unsupported(e, 'a new object (.%s) that is not given a name first' % f.attr)
         if m.get('mutating'):
+            if self.in_loop:
+                raise Unsupported(e, 'in-place method inside a loop')
             if p0:
                 raise Unsupported(e, 'receiver of an in-place method that needs a binding')
             term, ty, wb = self.lv(f.value, st, pre)
             v, o = self.fresh('t'), self.fresh('d')
-            pre.append(('let', "'(%s, %s)" % (v, o), fmt(m['coq'], term)))
+            pre.append(('let', "'(%s, %s)" % (v, o), fmt(m['coq'], term, *margs)))
             for pat, new in wb(o):
                 pre.append(('let', pat, new))
             return v, m['type']
         pre.extend(p0)
-        return fmt(m['coq'], base), m['type']
+        return fmt(m['coq'], base, *margs), m['type']
 
     def user_call(self, e, recv, meth, args, st, pre):
         if meth not in self.tr.done:
@@ -339,7 +419,7 @@ class Fn:
         if not stmts:
             return False
         s = stmts[-1]
-        if isinstance(s, ast.Return):
+        if isinstance(s, (ast.Return, ast.Raise)):
             return True
         if isinstance(s, ast.If):
             return self.leaves(s.body) and self.leaves(s.orelse)
@@ -347,7 +427,7 @@ class Fn:
 
     def result_tuple(self, t, st):
         parts = [t]
-        for key, wrap in self.out_cells:
+        for key in self.out_cells:
             var, ty = st.cells[key]
             want = self.cell_types[key]
             if ty != want:
@@ -358,55 +438,181 @@ class Fn:
             parts.append(var)
         return '(%s)' % ', '.join(parts)
 
-    def block(self, stmts, st):
+    def current(self, name, st):
+        b = st.env[name]
+        return st.cells[b[1]] if b[0] == 'cell' else [b[1], b[2]]
+
+    def modified(self, stmts, st):
+        """names of the environment a block can rebind or change in place (syntactic)"""
+        out = []
+
+        def add(n):
+            if isinstance(n, ast.Name) and n.id in st.env and n.id not in out:
+                out.append(n.id)
+        for s in stmts:
+            for n in ast.walk(s):
+                if isinstance(n, ast.Assign):
+                    for t in n.targets:
+                        add(t if isinstance(t, ast.Name) else getattr(t, 'value', None))
+                elif isinstance(n, (ast.AugAssign, ast.AnnAssign, ast.Delete, ast.With, ast.NamedExpr)):
+                    raise Unsupported(n, 'statement %s is outside the supported subset' % type(n).__name__)
+                elif isinstance(n, ast.Expr) and isinstance(n.value, ast.Call) and isinstance(n.value.func, ast.Attribute):
+                    add(n.value.func.value)
+                elif isinstance(n, ast.Call) and isinstance(n.func, ast.Attribute):
+                    # a mutating method inside an expression
+                    for ms in self.sig['methods'].values():
+                        if ms.get(n.func.attr, {}).get('mutating'):
+                            v = n.func.value
+                            add(v if isinstance(v, ast.Name) else getattr(v, 'value', None))
+        return out
+
+    def store(self, tg, term, ty, st, pre):
+        """name.field = term"""
+        if not (isinstance(tg.value, ast.Name) and tg.value.id in st.env and st.env[tg.value.id][0] == 'cell'):
+            raise Unsupported(tg, 'store into a field of anything but the receiver, a parameter or a fresh object')
+        if self.in_loop:
+            raise Unsupported(tg, 'store into a field inside a loop')
+        self.refine(tg.value, st, pre)
+        key = st.env[tg.value.id][1]
+        var, oty = st.cells[key]
+        f = self.sig['fields'].get(oty, {}).get(tg.attr)
+        if f is None:
+            raise Unsupported(tg, 'field .%s of a %s is not in the signature file' % (tg.attr, oty))
+        setter, fty = (f, self.sig['attrs'][oty][tg.attr][1]) if isinstance(f, str) else (f[0], f[1])
+        if fty != ty:
+            raise Unsupported(tg, 'store of a %s into a field of type %s' % (ty, fty))
+        pre.append(('let', var, fmt(setter, var, term)))
+
+    def block(self, stmts, st, tail):
         if not stmts:
-            raise Unsupported(self.node, '%s can end without a return' % self.node.name)
+            return tail(st)
         s, rest = stmts[0], stmts[1:]
         if isinstance(s, ast.Expr) and isinstance(s.value, ast.Constant) and isinstance(s.value.value, str):
-            return self.block(rest, st)
+            return self.block(rest, st, tail)
         if isinstance(s, ast.Pass):
-            return self.block(rest, st)
+            return self.block(rest, st, tail)
         if isinstance(s, ast.Return):
             if s.value is None:
                 raise Unsupported(s, 'bare return')
+            if self.no_return:
+                raise Unsupported(s, 'return inside a loop or a merged if')
             pre = []
             t, ty = self.cx(s.value, st, pre)
             if ty != self.spec['ret']:
                 raise Unsupported(s, 'return of a %s where %s is expected' % (ty, self.spec['ret']))
             return self.binds(pre, ('ret', self.result_tuple(t, st)))
+        if isinstance(s, ast.Raise):
+            return self.raise_(s, st)
         if isinstance(s, ast.Assign):
-            if len(s.targets) != 1:
-                raise Unsupported(s, 'multiple assignment targets')
-            tg = s.targets[0]
-            pre = []
-            t, ty = self.cx(s.value, st, pre)
-            if isinstance(tg, ast.Name):
-                if ty not in self.sig['types']:
-                    raise Unsupported(s, 'a local of type %s' % ty)
-                if tg.id in st.env and st.env[tg.id][0] == 'val' and st.env[tg.id][2] != ty:
-                    raise Unsupported(s, 'local %s changes type' % tg.id)
-                if tg.id in st.env and st.env[tg.id][0] == 'cell' and self.cell_types[st.env[tg.id][1]] != ty \
-                        and st.cells[st.env[tg.id][1]][1] != ty:
-                    raise Unsupported(s, 'parameter %s rebound to a %s' % (tg.id, ty))
-                if tg.id == 'self':
-                    raise Unsupported(s, 'assignment to self')
-                # the name now denotes a new value; the caller's object keeps what it had
-                v = self.fresh(tg.id + '_')
-                st.env[tg.id] = ('val', v, ty)
-                return self.binds(pre, ('let', v, t, self.block(rest, st)))
-            if isinstance(tg, ast.Attribute):
-                term, fty, wb = self.lv(tg, st, pre)
-                if fty != ty:
-                    raise Unsupported(s, 'store of a %s into a field of type %s' % (ty, fty))
-                for pat, new in wb(t):
-                    pre.append(('let', pat, new))
-                return self.binds(pre, self.block(rest, st))
-            raise Unsupported(s, 'assignment target outside the subset')
+            return self.assign(s, rest, st, tail)
         if isinstance(s, ast.If):
-            return self.if_(s, rest, st)
+            return self.if_(s, rest, st, tail)
+        if isinstance(s, ast.For):
+            return self.for_(s, rest, st, tail)
+        if isinstance(s, ast.Expr) and isinstance(s.value, ast.Call):
+            pre = []
+            t, ty = self.cx(s.value, st, pre, stmt=True)
+            if ty != 'none':
+                raise Unsupported(s, 'a call statement whose value (a %s) is dropped' % ty)
+            return self.binds(pre, self.block(rest, st, tail))
         raise Unsupported(s, 'statement %s is outside the supported subset' % type(s).__name__)
 
-    def if_(self, s, rest, st):
+    def raise_(self, s, st):
+        e = s.exc
+        if s.cause is not None or not (isinstance(e, ast.Call) and isinstance(e.func, ast.Name) and len(e.args) == 1
+                                       and not e.keywords and e.func.id in self.sig.get('exceptions', {})):
+            raise Unsupported(s, 'raise outside the subset (one of the exception classes of the signature file, one message)')
+        self.tr.need_import(s, e.func.id)
+        m = e.args[0]
+        args = []
+        if isinstance(m, ast.BinOp) and isinstance(m.op, ast.Mod):
+            args = list(m.right.elts) if isinstance(m.right, ast.Tuple) else [m.right]
+            m = m.left
+        if not (isinstance(m, ast.Constant) and isinstance(m.value, str)):
+            raise Unsupported(s, 'exception message outside the subset')
+        if m.value not in self.sig.get('raise_messages', []):
+            raise Unsupported(s, 'message text %r is not in the signature file' % m.value[:50])
+        for a in args:
+            if not (isinstance(a, ast.Name) and a.id in st.env):
+                raise Unsupported(s, 'message parameter outside the subset')
+        return ('m', 'RErr %s' % self.sig['exceptions'][e.func.id])
+
+    def fresh_object(self, e, st):
+        """x.m() with m declared to return a new object -> (term, type) or None"""
+        if isinstance(e, ast.Call) and isinstance(e.func, ast.Attribute) and isinstance(e.func.value, ast.Name) \
+                and e.func.value.id in st.env and not e.args and not e.keywords:
+            var, ty = self.current(e.func.value.id, st)
+            m = self.sig['methods'].get(ty, {}).get(e.func.attr)
+            if m and m.get('fresh'):
+                return fmt(m['coq'], var), m['type']
+        return None
+
+    def new_cell(self, name, term, ty, st):
+        v = self.fresh(name + '_')
+        key = '%s#%s' % (name, v)
+        st.cells[key] = [v, ty]
+        self.cell_types[key] = ty
+        st.env[name] = ('cell', key)
+        return v
+
+    def assign(self, s, rest, st, tail):
+        if len(s.targets) != 1:
+            raise Unsupported(s, 'multiple assignment targets')
+        tg = s.targets[0]
+        pre = []
+        if isinstance(tg, ast.Name) and tg.id == 'self':
+            raise Unsupported(s, 'assignment to self')
+        # name = <object> if c else <object>: the rest is translated once per alias
+        if isinstance(tg, ast.Name) and isinstance(s.value, ast.IfExp):
+            c, cty = self.cx(s.value.test, st, pre)
+            if cty != 'bool':
+                raise Unsupported(s, 'truth value of a %s' % cty)
+            arms = []
+            for e in (s.value.body, s.value.orelse):
+                st2 = st.copy()
+                if isinstance(e, ast.Name) and e.id in st2.env and st2.env[e.id][0] == 'cell':
+                    st2.env[tg.id] = st2.env[e.id]
+                    arms.append(self.block(rest, st2, tail))
+                    continue
+                fo = self.fresh_object(e, st2)
+                if fo is None:
+                    raise Unsupported(s, 'conditional expression whose arms are not objects')
+                v = self.new_cell(tg.id, fo[0], fo[1], st2)
+                arms.append(('let', v, fo[0], self.block(rest, st2, tail)))
+            return self.binds(pre, ('if', c, arms[0], arms[1]))
+        if isinstance(tg, ast.Name):
+            fo = self.fresh_object(s.value, st)
+            if fo is not None:
+                v = self.new_cell(tg.id, fo[0], fo[1], st)
+                return ('let', v, fo[0], self.block(rest, st, tail))
+        t, ty = self.cx(s.value, st, pre)
+        if isinstance(tg, ast.Name):
+            if ty not in self.sig['types']:
+                raise Unsupported(s, 'a local of type %s' % ty)
+            if tg.id in st.env and self.current(tg.id, st)[1] != ty and \
+                    not (st.env[tg.id][0] == 'cell' and self.cell_types[st.env[tg.id][1]] == ty):
+                raise Unsupported(s, 'name %s changes type to %s' % (tg.id, ty))
+            # the name now denotes a new value; an object of the caller keeps what it had
+            v = self.fresh(tg.id + '_')
+            st.env[tg.id] = ('val', v, ty)
+            return self.binds(pre, ('let', v, t, self.block(rest, st, tail)))
+        if isinstance(tg, ast.Attribute):
+            self.store(tg, t, ty, st, pre)
+            return self.binds(pre, self.block(rest, st, tail))
+        if isinstance(tg, ast.Subscript) and isinstance(tg.value, ast.Name) and tg.value.id in st.env \
+                and st.env[tg.value.id][0] == 'val':
+            name = tg.value.id
+            var, aty = self.current(name, st)
+            si = self.sig.get('setitem', {}).get(aty)
+            i, ity = self.cx(tg.slice, st, pre)
+            if si is None or ity != si['index'] or ty != si['value']:
+                raise Unsupported(s, 'item store %s[%s] = %s outside the signature file' % (aty, ity, ty))
+            v = self.fresh(name + '_')
+            st.env[name] = ('val', v, aty)
+            return self.binds(pre, ('bind', v, fmt(si['coq'], var, i, t), self.block(rest, st, tail)))
+        raise Unsupported(s, 'assignment target outside the subset')
+
+    def if_(self, s, rest, st, tail):
         # if not isinstance(x, self.__class__): <leave>   -> case analysis that types x afterwards
         for ty, r in self.sig['refine'].items():
             b = match_pattern(r['guard'], s.test)
@@ -415,24 +621,133 @@ class Fn:
                     and st.cells['self'][1] == r['to']:
                 key = st.env[b[0].id][1]
                 var = st.cells[key][0]
-                no = self.block(list(s.body), st.copy())
+                no = self.block(list(s.body), st.copy(), tail)
                 st2 = st.copy()
                 st2.cells[key] = [var + '_t', r['to']]
-                yes = self.block(list(rest), st2)
+                yes = self.block(list(rest), st2, tail)
                 return ('match', fmt(r['test'], var), [('None', no), ('Some %s_t' % var, yes)])
         pre = []
         c, ty = self.cx(s.test, st, pre)
         if ty != 'bool':
             raise Unsupported(s, 'truth value of a %s' % ty)
         if self.leaves(s.body):
-            a = self.block(list(s.body), st.copy())
-            b = self.block(list(s.orelse) + list(rest), st.copy())
+            a = self.block(list(s.body), st.copy(), tail)
+            b = self.block(list(s.orelse) + list(rest), st.copy(), tail)
             return self.binds(pre, ('if', c, a, b))
         if s.orelse and self.leaves(s.orelse):
-            a = self.block(list(s.body) + list(rest), st.copy())
-            b = self.block(list(s.orelse), st.copy())
+            a = self.block(list(s.body) + list(rest), st.copy(), tail)
+            b = self.block(list(s.orelse), st.copy(), tail)
             return self.binds(pre, ('if', c, a, b))
-        raise Unsupported(s, 'an if whose branches do not both end in a return')
+        # both arms fall through: merge through the tuple of what they can change
+        if any(isinstance(n, ast.Return) for x in list(s.body) + list(s.orelse) for n in ast.walk(x)):
+            raise Unsupported(s, 'an if that returns on some paths only')
+        names = self.modified(list(s.body) + list(s.orelse), st)
+        before = {n: self.current(n, st)[1] for n in names}
+
+        def merged(st2):
+            vals = []
+            for n in names:
+                var, ty2 = self.current(n, st2)
+                if ty2 != before[n] or st2.env[n][0] != st.env[n][0] or \
+                        (st.env[n][0] == 'cell' and st2.env[n][1] != st.env[n][1]):
+                    raise Unsupported(s, 'name %s changes type or object in one arm of an if' % n)
+                vals.append(var)
+            return ('ret', '(%s)' % ', '.join(vals) if len(vals) != 1 else vals[0]) if vals else ('ret', 'tt')
+        saved = self.no_return
+        self.no_return = True
+        a = self.block(list(s.body), st.copy(), merged)
+        b = self.block(list(s.orelse), st.copy(), merged)
+        self.no_return = saved
+        pats = []
+        for n in names:
+            if st.env[n][0] == 'cell':
+                pats.append(st.cells[st.env[n][1]][0])
+            else:
+                v = self.fresh(n + '_')
+                st.env[n] = ('val', v, before[n])
+                pats.append(v)
+        body = self.block(rest, st, tail)
+        if len(pats) == 0:
+            code = ('bindc', '_', ('if', c, a, b), body)
+        elif len(pats) == 1:
+            code = ('bindc', pats[0], ('if', c, a, b), body)
+        else:
+            m = self.fresh('m')
+            code = ('bindc', m, ('if', c, a, b), ('let', "'(%s)" % ', '.join(pats), m, body))
+        return self.binds(pre, code)
+
+    def for_(self, s, rest, st, tail):
+        it = s.iter
+        if s.orelse or not (isinstance(it, ast.Call) and isinstance(it.func, ast.Name) and it.func.id == 'enumerate'
+                            and 'enumerate' not in st.env and len(it.args) == 1 and not it.keywords
+                            and isinstance(s.target, ast.Tuple) and len(s.target.elts) == 2
+                            and all(isinstance(x, ast.Name) for x in s.target.elts)):
+            raise Unsupported(s, 'loop outside the subset (only `for i, x in enumerate(<list>)`)')
+        if self.in_loop:
+            raise Unsupported(s, 'nested loop')
+        idx, item = s.target.elts[0].id, s.target.elts[1].id
+        pre = []
+        src, sty = self.cx(it.args[0], st, pre)
+        ety = self.sig.get('elem', {}).get(sty)
+        if ety is None:
+            raise Unsupported(s, 'loop over a %s' % sty)
+        for n in (idx, item):
+            if n in st.env:
+                raise Unsupported(s, 'loop target %s shadows a name' % n)
+        for n in ast.walk(ast.Module(body=s.body, type_ignores=[])):
+            if isinstance(n, (ast.Return, ast.Break, ast.Continue, ast.For, ast.While)):
+                raise Unsupported(n, '%s inside a loop' % type(n).__name__)
+        state = self.modified(s.body, st)
+        for n in state:
+            if st.env[n][0] != 'val':
+                raise Unsupported(s, 'a loop that changes the object %s' % n)
+        used = {n.id for b in s.body for n in ast.walk(b) if isinstance(n, ast.Name)}
+        frees = [n for n in st.env if n in used and n not in state]
+        self.nloop += 1
+        lname = '%s_loop%d' % (self.spec['coq'], self.nloop)
+        types = self.sig['types']
+        lst = st.copy()
+        params, args0 = [], []
+        for n in frees + [None] + state:
+            if n is None:
+                params.append('(%s : nat)' % idx)
+                args0.append('0')
+                continue
+            var, ty = self.current(n, st)
+            if ty not in types:
+                raise Unsupported(s, 'a loop that uses a %s' % ty)
+            pv = var if st.env[n][0] == 'val' else var
+            params.append('(%s : %s)' % (pv, types[ty]))
+            args0.append(var)
+        lst.env[idx] = ('val', idx, 'nat')
+        lst.env[item] = ('val', item, ety)
+
+        def again(st2):
+            a = [self.current(n, st2)[0] for n in frees] + ['(S %s)' % idx] + [self.current(n, st2)[0] for n in state]
+            return ('m', '%s %s rest_' % (lname, ' '.join(a)))
+        saved = (self.no_return, self.in_loop)
+        self.no_return, self.in_loop = True, True
+        body = self.block(list(s.body), lst, again)
+        self.no_return, self.in_loop = saved
+        svals = [self.current(n, st)[0] for n in state]
+        sty_ = [types[self.current(n, st)[1]] for n in state]
+        if not state:
+            raise Unsupported(s, 'a loop without any effect on a local')
+        nil = 'ROk %s' % (svals[0] if len(svals) == 1 else '(%s)' % ', '.join(svals))
+        self.aux.append('Fixpoint %s %s (l_ : list %s) {struct l_} : result (%s) :=\n  match l_ with\n  | [] => %s\n'
+                        '  | %s :: rest_ =>\n%s\n  end.' % (lname, ' '.join(params), types[ety], ' * '.join(sty_), nil,
+                                                            item, render(body, 6)))
+        pats = []
+        for n in state:
+            v = self.fresh(n + '_')
+            st.env[n] = ('val', v, self.current(n, st)[1])
+            pats.append(v)
+        call = '%s %s %s' % (lname, ' '.join(args0), paren(src))
+        after = self.block(rest, st, tail)
+        if len(pats) == 1:
+            return self.binds(pre, ('bind', pats[0], call, after))
+        m = self.fresh('m')
+        return self.binds(pre, ('bind', m, call, ('let', "'(%s)" % ', '.join(pats), m, after)))
 
     def translate(self):
         fn, spec, sig = self.node, self.spec, self.sig
@@ -443,24 +758,40 @@ class Fn:
         if names[:1] != ['self'] or names[1:] != [p[0] for p in spec['params']]:
             raise Unsupported(fn, 'parameters of %s are %s, the signature file says %s'
                               % (fn.name, names[1:], [p[0] for p in spec['params']]))
-        if len(a.defaults) != len([p for p in spec['params'] if len(p) > 2]):
-            raise Unsupported(fn, 'defaults of %s differ from the signature file' % fn.name)
+        want = spec.get('defaults', [])
+        got = []
+        for d in a.defaults:
+            if not isinstance(d, ast.Constant):
+                raise Unsupported(fn, 'a default of %s is not a constant' % fn.name)
+            got.append(d.value)
+        if got != want or [type(x) for x in got] != [type(x) for x in want]:
+            raise Unsupported(fn, 'defaults of %s are %s, the signature file says %s' % (fn.name, got, want))
         cells = {'self': ['self', sig['self_type']]}
         env = {'self': ('cell', 'self')}
         self.cell_types = {'self': sig['self_type']}
-        self.out_cells = [('self', None)]
+        self.out_cells = ['self']
+        self.no_return = self.in_loop = False
+        self.nloop = 0
+        self.aux = []
         ps = ' (self : %s)' % sig['types'][sig['self_type']]
         for p in spec['params']:
             pn, pt = p[0], p[1]
             v = pn + '_' if pn in sig.get('reserved', []) else pn
-            cells[pn] = [v, pt]
-            env[pn] = ('cell', pn)
-            self.cell_types[pn] = pt
-            self.out_cells.append((pn, None))
+            if len(p) > 2 and p[2] == 'value':
+                env[pn] = ('val', v, pt)
+            else:
+                cells[pn] = [v, pt]
+                env[pn] = ('cell', pn)
+                self.cell_types[pn] = pt
+                self.out_cells.append(pn)
             ps += ' (%s : %s)' % (v, sig['types'][pt])
-        code = self.block(list(fn.body), State(cells, env))
-        rty = ' * '.join([sig['types'][spec['ret']]] + [sig['types'][self.cell_types[k]] for k, _ in self.out_cells])
-        return 'Definition %s%s : result (%s) :=\n%s.' % (spec['coq'], ps, rty, render(code, 2))
+
+        def no_tail(st):
+            raise Unsupported(fn, '%s can end without a return' % fn.name)
+        code = self.block(list(fn.body), State(cells, env), no_tail)
+        rty = ' * '.join([sig['types'][spec['ret']]] + [sig['types'][self.cell_types[k]] for k in self.out_cells])
+        text = 'Definition %s%s : result (%s) :=\n%s.' % (spec['coq'], ps, rty, render(code, 2))
+        return '\n\n'.join(self.aux + [text])
 
 
 class Translator:
@@ -479,6 +810,25 @@ class Translator:
                 self.methods.setdefault(n.name, n)
         self.specs = {e['py']: e for e in sig['emit']}
         self.done = []
+
+    def need_import(self, node, name):
+        """a module-level name the signature file gives a meaning to must come from the module it names"""
+        want = self.sig.get('imports', {}).get(name)
+        if want is None:
+            return
+        for n in self.tree.body:
+            if isinstance(n, ast.ImportFrom) and n.level == 0 and n.module == want \
+                    and any(a.name == name and a.asname is None for a in n.names):
+                break
+        else:
+            raise Unsupported(node, 'name %s is not imported from %s' % (name, want))
+        for n in ast.walk(self.tree):
+            if isinstance(n, (ast.FunctionDef, ast.ClassDef)) and n.name == name or \
+                    isinstance(n, ast.Name) and n.id == name and isinstance(n.ctx, ast.Store) or \
+                    isinstance(n, ast.arg) and n.arg == name or \
+                    isinstance(n, ast.alias) and (n.asname or n.name) == name and not \
+                    (n.name == name and n.asname is None):
+                raise Unsupported(node, 'name %s is rebound somewhere in the module' % name)
 
     def translate(self):
         sig = self.sig
@@ -499,7 +849,7 @@ class Translator:
             self.done.append(ent['py'])
         head = ['(* GENERATED by tools/py2v_eq from %s (class %s) - do not edit; regenerated on every check. *)'
                 % (sig['source'], sig['class'])] + sig['header']
-        return '\n'.join(head) + '\n\n' + '\n\n'.join(out) + '\n'
+        return '\n'.join(head) + '\n\n' + '\n\n'.join(out) + '\n' + ''.join(l + '\n' for l in sig.get('footer', []))
 
 
 def translate(sigpath, repo):
